@@ -38,6 +38,7 @@ var vKeys = map[int]vKey{
 	5: {"id5", "bogus-cipher-9000", "secret-five"},     // unusable cipher
 	6: {"id6", "aes-192-gcm", "secret-four"},
 	7: {"id7", "aes-256-gcm", "secret-one"}, // the secret of key 1 under another cipher: a different key
+	8: {"id1", "aes-256-gcm", "secret-one"}, // key 1 (same id, same secret) under another cipher: what a reload that changes a key's cipher loads
 }
 
 // cipher+secret classes -> representative key
